@@ -56,6 +56,11 @@ def judge(case):
     cls = []
     nt = None
     very = case["very"]
+    w = case.get("warm")
+    if w:
+        # an earlier request on the same colours with another configuration must not influence what follows
+        ColorPair(t, b, large if w.get("large") is None else w["large"]).make_readable(mode=w["mode"], very_readable=w["very"])
+        cls.append("after-other-configuration")
     # (a) mode 1 => mode 2
     with _Steps() as s1:
         r1 = pair.make_readable(mode=1, very_readable=very)
@@ -98,7 +103,11 @@ def strategy(draw):
         text, bg, meta = draw(optim.uniform_pairs())
     targ, tkind, _ = draw(gc.spell(text, kinds=["hex6", "rgb", "hsl", "tuple", "named"]))
     barg, bkind, _ = draw(gc.spell(bg, kinds=["hex6", "rgb", "tuple"], allow_translucent=False))
-    return {"text": targ, "bg": barg, "large": large, "very": very, "mode": mode, "tkind": tkind}
+    case = {"text": targ, "bg": barg, "large": large, "very": very, "mode": mode, "tkind": tkind}
+    w = draw(optim.warm())
+    if w:
+        case["warm"] = w
+    return case
 
 
 def subchecks(tier):
